@@ -61,6 +61,9 @@ type Node struct {
 	PayPlan          map[string][]PayOutcome
 	RecoverPlan      []bool
 	MineOnHeightCall map[string][]uint32
+	// HeightLag: per chain, how far behind the true tip the next height queries answer (a back-end that
+	// is still catching up, a lagging electrum server, a reorganisation); 0 entries answer the truth
+	HeightLag map[string][]uint32
 
 	// observations
 	PayCalls     []*PayCall
@@ -97,6 +100,7 @@ func (w *World) AddNode(name string) *Node {
 		Faults:           map[string][]FaultKind{},
 		PayPlan:          map[string][]PayOutcome{},
 		MineOnHeightCall: map[string][]uint32{},
+		HeightLag:        map[string][]uint32{},
 		Notifiers:        map[string]*notifier{},
 		ConfWaits:        map[string][]*ConfWait{},
 		CsvWaits:         map[string][]*CsvWait{},
